@@ -260,7 +260,178 @@ def run(ctx):
                 "non-trivial = N>=2 with at least two players having >=2 actions and at least one call; distinct by request line")
     tmpdir = tempfile.mkdtemp(prefix="c14_")
     cases = []
-    cur = {}    # description of the library call about to be made (for the replay if it raises)
+    cur = {"dtol": 1e-8}    # description of the library call about to be made (for the replay if it raises);
+    #                         "dtol": the players' current default tolerance (attribute `tol`, reassignable)
+    inputs = []             # arrays handed to the library in the current call: (label, array, bytes at call time)
+    returned = []           # arrays the library returned in the current call: (label, array)
+
+    # ---- argument forms: the same numbers in every shape the API accepts ------------------------------------------
+    INT_T = [np.int8, np.int16, np.int32, np.int64, np.uint8, np.uint16, np.uint32, np.uint64, np.intp]
+
+    def reg(label, arr):
+        if isinstance(arr, np.ndarray):
+            base = arr if arr.base is None or not isinstance(arr.base, np.ndarray) else arr.base
+            inputs.append((label, base, base.tobytes()))
+        return arr
+
+    def ret(label, arr):
+        if isinstance(arr, np.ndarray):
+            returned.append((label, arr))
+        return arr
+
+    def finding(key, what, replay):
+        """a defect of the CLEAN code on a legal form / history: counted (`unlisted-finding:<key>`) until the
+        key is listed in known_findings.txt, from then on reported as KNOWN-FINDING"""
+        if key in ctx.known:
+            ctx.spec_fail(key, what, replay)
+        else:
+            if not ctx.counters["unlisted-finding:" + key]:
+                ctx.notes.append("unlisted finding %s: %s" % (key, what))
+            ctx.count("unlisted-finding:" + key)
+
+    def fint(a, allow_bool=False, signed=False):
+        """an integer as Python int / NumPy integer scalar of any width (/ bool for 0 and 1)"""
+        if isinstance(a, bool) or not isinstance(a, (int, np.integer)):
+            return a
+        a = int(a)
+        r = rng.random()
+        if r < 0.4:
+            return a
+        if allow_bool and a in (0, 1) and r < 0.47:
+            ctx.count("form:int:bool")
+            return bool(a)
+        ts = [t for t in INT_T if np.iinfo(t).min <= a <= np.iinfo(t).max
+              and not (signed and np.issubdtype(t, np.unsignedinteger))]
+        t = rng.choice(ts)
+        ctx.count("form:int:" + t.__name__)
+        return t(a)
+
+    def f32ok(x):
+        with np.errstate(all="ignore"):
+            return all(float(np.float32(v)) == float(v) for v in np.asarray(x, dtype=float).ravel().tolist())
+
+    def fvec(x, label="vector"):
+        """a float vector as ndarray / list / tuple / strided, reversed, column views / float32 / integer dtype"""
+        x = np.array(x, dtype=float)
+        k = rng.randrange(9)
+        if k == 1:
+            ctx.count("form:vec:list")
+            return x.tolist()
+        if k == 2:
+            ctx.count("form:vec:tuple")
+            return tuple(x.tolist())
+        if k == 3:
+            buf = np.full(2 * len(x) + 1, 7.5)
+            buf[::2][:len(x)] = x
+            ctx.count("form:vec:strided")
+            return reg(label, buf[::2][:len(x)])
+        if k == 4:
+            buf = x[::-1].copy()
+            ctx.count("form:vec:reversed-view")
+            return reg(label, buf[::-1])
+        if k == 5 and f32ok(x):
+            ctx.count("form:vec:float32")
+            return reg(label, x.astype(np.float32))
+        if k == 6 and all(float(v).is_integer() for v in x):
+            ctx.count("form:vec:int64")
+            return reg(label, x.astype(np.int64))
+        if k == 7:
+            M = np.asfortranarray(np.stack([x + 1.0, x, x - 1.0], axis=0))
+            ctx.count("form:vec:row-of-F-matrix")
+            return reg(label, M[1])
+        if k == 8:
+            ctx.count("form:vec:list-of-np-scalars")
+            return [np.float64(v) for v in x]
+        ctx.count("form:vec:ndarray")
+        return reg(label, x)
+
+    def fprof(prof):
+        """an action profile (N >= 2) as tuple / list / ndarray of ints of any width"""
+        k = rng.randrange(6)
+        if k == 0:
+            return tuple(prof)
+        if k == 1:
+            ctx.count("form:profile:list")
+            return list(prof)
+        if k == 2:
+            ctx.count("form:profile:np-scalars")
+            return tuple(fint(a) for a in prof)
+        ts = [t for t in (np.int8, np.int32, np.int64, np.intp) if all(np.iinfo(t).min <= a <= np.iinfo(t).max for a in prof)]
+        if min(prof) >= 0:
+            ts += [np.uint8, np.uint64]
+        t = rng.choice(ts)
+        ctx.count("form:profile:ndarray-" + t.__name__)
+        arr = np.array(prof, dtype=t)
+        if k == 5:
+            buf = np.zeros(2 * len(prof), dtype=t)
+            buf[::2] = arr
+            ctx.count("form:profile:strided")
+            return reg("profile", buf[::2])
+        return reg("profile", arr)
+
+    def fvals(vals, kind):
+        """the payoff profile assigned by __setitem__ in several containers / dtypes"""
+        k = rng.randrange(6)
+        if k == 0:
+            return list(vals)
+        if k == 1:
+            ctx.count("form:values:tuple")
+            return tuple(vals)
+        if kind == "i":
+            if k == 2 and all(-2 ** 31 <= v < 2 ** 31 for v in vals):
+                ctx.count("form:values:int32")
+                return reg("values", np.array(vals, dtype=np.int32))
+            ctx.count("form:values:int64")
+            return reg("values", np.array(vals, dtype=np.int64))
+        if k == 2 and f32ok(vals):
+            ctx.count("form:values:float32")
+            return reg("values", np.array(vals, dtype=np.float32))
+        if k == 3:
+            buf = np.array(vals, dtype=float)[::-1].copy()
+            ctx.count("form:values:reversed-view")
+            return reg("values", buf[::-1])
+        if k == 4 and all(float(v).is_integer() and abs(v) < 2 ** 31 for v in vals):
+            ctx.count("form:values:int-into-float-game")
+            return [int(v) for v in vals]
+        ctx.count("form:values:ndarray")
+        return reg("values", np.array(vals, dtype=float))
+
+    def ftol(tol, no_f32=False):
+        if tol is None:
+            return None
+        k = rng.randrange(6)
+        if k == 2 and no_f32:
+            k = 1
+        if k == 1:
+            ctx.count("form:tol:np.float64")
+            return np.float64(tol)
+        if k == 2 and f32ok([tol]):
+            ctx.count("form:tol:np.float32")
+            return np.float32(tol)
+        if k == 3 and float(tol).is_integer():
+            ctx.count("form:tol:int")
+            return int(tol)
+        if k == 4 and float(tol).is_integer():
+            ctx.count("form:tol:np.int64")
+            return np.int64(int(tol))
+        if k == 5 and tol == 0:
+            ctx.count("form:tol:False")
+            return False
+        return tol
+
+    def call_tol(fn, args, tol, kwargs=None, positional=True, no_f32=False):
+        """call fn(*args, tol) with the tolerance omitted / None / positional / keyword, in any scalar form"""
+        kwargs = dict(kwargs or {})
+        tf = ftol(tol, no_f32)
+        mode = rng.randrange(3)
+        if tol is None and mode == 0:
+            ctx.count("form:tol:omitted")
+            return fn(*args, **kwargs)
+        if mode == 1 and positional:
+            ctx.count("form:tol:positional" + ("-None" if tol is None else ""))
+            return fn(*args, tf, **kwargs)
+        ctx.count("form:tol:keyword" + ("-None" if tol is None else ""))
+        return fn(*args, tol=tf, **kwargs)
 
     # ---- value classes ------------------------------------------------------------------------
     specials = [0.1, 0.2, 0.1 + 0.2, 1 / 3, 2 / 3, 1e-5, 1.0000000000000002, 123456.78901234567, -0.30000000000000004,
@@ -317,7 +488,9 @@ def run(ctx):
     def tol_tok(tol):
         """the tolerance argument on the wire: `none` when omitted (the model resolves the default as
         the code does), else its exact value"""
-        return "none" if tol is None else rat(F(tol))
+        if tol is None:
+            return "none" if cur["dtol"] == 1e-8 else rat(F(cur["dtol"]))
+        return rat(F(tol))
 
     def rand_tol(cls):
         r = rng.random()
@@ -333,6 +506,49 @@ def run(ctx):
     def np_dtype(cls):
         return np.int64 if cls in ("int", "bigint") else np.float64
 
+    def build(D, cls, label):
+        """NormalFormGame(D) with D handed over as ndarray (C / F order, transposed, strided, reversed views,
+        narrower dtype) or nested list; the input must stay as it was and must not be aliased by the game"""
+        k = rng.randrange(8)
+        base = None
+        if k == 1:
+            arg = D.tolist()
+            ctx.count("form:ctor:nested-list")
+        elif k == 2:
+            arg = base = np.asfortranarray(D)
+            ctx.count("form:ctor:F-order")
+        elif k == 3:
+            base = np.ascontiguousarray(D.T)
+            arg = base.T
+            ctx.count("form:ctor:transposed-view")
+        elif k == 4:
+            base = np.zeros((2 * D.shape[0],) + D.shape[1:], dtype=D.dtype)
+            base[::2] = D
+            arg = base[::2]
+            ctx.count("form:ctor:strided-view")
+        elif k == 5 and cls in ("int", "dyad"):
+            arg = base = D.astype(np.int32 if cls == "int" else np.float32)
+            ctx.count("form:ctor:" + arg.dtype.name)
+        elif k == 6:
+            base = D[::-1].copy()
+            arg = base[::-1]
+            ctx.count("form:ctor:reversed-view")
+        elif k == 7:
+            arg = tuple(D.tolist())
+            ctx.count("form:ctor:tuple-of-lists")
+        else:
+            arg = base = D.copy()
+            ctx.count("form:ctor:ndarray")
+        before = None if base is None else base.tobytes()
+        g = NormalFormGame(arg)
+        if base is not None:
+            if base.tobytes() != before:
+                ctx.spec_fail("input-mutated", "%s: the constructor changed its input array" % label, {"call": cur.get("call")})
+            if any(np.shares_memory(p.payoff_array, base) for p in g.players):
+                ctx.spec_fail("alias:constructor-input", "%s: a player's payoff array shares memory with the constructor's input" % label,
+                              {"call": cur.get("call")})
+        return g
+
     def make_game():
         cls = rng.choice(["int", "int", "dyad", "dyad", "f17", "f17", "bigint", "bigint", "extf"])
         kind = rng.choice(["prof", "prof", "prof", "zeros", "sym", "players", "gam", "poly"])
@@ -341,7 +557,7 @@ def run(ctx):
             n = rng.randint(2, 5)
             A = np.array([[value(cls) for _ in range(n)] for _ in range(n)], dtype=dt)
             cur["call"] = {"ctor": "sym", "matrix": A.tolist()}
-            g = NormalFormGame(A)
+            g = build(A, cls, "symmetric matrix")
             u = {(a, b): (A[a, b].item(), A[b, a].item()) for a in range(n) for b in range(n)}
             return ("ctor=sym n=%d data=%s" % (n, rats(F(x) for x in A.ravel().tolist())), g, Truth((n, n), u), cls, False,
                     {"ctor": "sym", "matrix": A.tolist()})
@@ -358,11 +574,29 @@ def run(ctx):
             pm = {(i, j): np.array([[value(pcls) for _ in range(nums[j])] for _ in range(nums[i])], dtype=float)
                   for i in range(N) for j in range(N) if i != j}
             cur["call"] = {"ctor": "poly", "nums": list(nums), "polymatrix": {"%d,%d" % k: v.tolist() for k, v in pm.items()}}
-            if rng.random() < 0.5:
-                g = PolymatrixGame(pm, nums_actions=nums).to_nfg()
-            else:       # numbers of players / actions inferred from the dictionary
-                g = PolymatrixGame(pm).to_nfg()
+            pm_before = {k: v.tobytes() for k, v in pm.items()}
+            pm_in = {k: (v.tolist() if rng.random() < 0.3 else (np.asfortranarray(v) if rng.random() < 0.3 else v)) for k, v in pm.items()}
+            r_ = rng.random()
+            if r_ < 0.25:
+                pg = PolymatrixGame(pm_in, nums_actions=nums)
+            elif r_ < 0.5:
+                pg = PolymatrixGame(pm_in, list(nums))
+                ctx.count("form:poly:nums-list-positional")
+            elif r_ < 0.6:
+                pg = PolymatrixGame(pm_in, nums_actions=None)
                 ctx.count("poly:inferred-nums")
+            else:       # numbers of players / actions inferred from the dictionary
+                pg = PolymatrixGame(pm_in)
+                ctx.count("poly:inferred-nums")
+            g = pg.to_nfg()
+            g_again = pg.to_nfg()      # a second conversion of the same object: a fresh, equal game
+            if any(np.shares_memory(p_.payoff_array, q_.payoff_array) for p_ in g.players for q_ in g_again.players) or \
+                    any(p_.payoff_array.tolist() != q_.payoff_array.tolist() for p_, q_ in zip(g.players, g_again.players)):
+                ctx.spec_fail("polymatrix-to_nfg-twice", "two to_nfg() calls on one PolymatrixGame alias each other or differ", {"call": cur["call"]})
+            if any(v.tobytes() != pm_before[k] for k, v in pm.items()):
+                ctx.spec_fail("input-mutated", "PolymatrixGame(...) / to_nfg changed the caller's matrices", {"call": cur["call"]})
+            if any(np.shares_memory(p_.payoff_array, m_) for p_ in g.players for m_ in list(pm.values()) + list(pg.polymatrix.values())):
+                ctx.spec_fail("alias:polymatrix", "a player's array of to_nfg() shares memory with a polymatrix matrix", {"call": cur["call"]})
             u = {}
             for p in itertools.product(*[range(n) for n in nums]):
                 u[p] = tuple(float(sum(F(pm[(i, j)][p[i], p[j]].item()) for j in range(N) if j != i)) for i in range(N))
@@ -409,13 +643,11 @@ def run(ctx):
             # a 1-player game is given by its payoff vector through Players (a profile array of
             # shape (n, 1) works too)
             if rng.random() < 0.5:
-                g = NormalFormGame(D)
+                g = build(D, cls, "payoff profile array")
                 return ("ctor=prof shape=%s data=%s" % (ints(D.shape), rats(F(x) for x in D.ravel().tolist())), g, T, cls, False, rep)
             g = NormalFormGame([Player(D[:, 0].copy())])
             return ("ctor=players shapes=%d datas=%s" % (nums[0], rats(F(x) for x in D[:, 0].tolist())), g, T, cls, False, rep)
-        if N == 2 and nums[0] == nums[1] and False:
-            pass
-        g = NormalFormGame(D)
+        g = build(D, cls, "payoff profile array")
         return ("ctor=prof shape=%s data=%s" % (ints(D.shape), rats(F(x) for x in D.ravel().tolist())), g, T, cls, False, rep)
 
     # ---- one call ----------------------------------------------------------------------------------
@@ -428,11 +660,19 @@ def run(ctx):
 
     def as_arg(N, opps):
         """how the library wants one player's opponents' actions"""
+        def one(o):
+            if isinstance(o, (int, np.integer)):
+                return fint(o, allow_bool=True)
+            return fvec(o, "opponent's mixed action")
         if N == 1:
             return None
         if N == 2:
-            return opps[0]
-        return tuple(opps)
+            return one(opps[0])
+        out = [one(o) for o in opps]
+        if rng.random() < 0.5:
+            ctx.count("form:opponents:list")
+            return out
+        return tuple(out)
 
     def do_op(g, T, cls, is_poly, name, replay):
         """returns (op token or None, out string, new g, new T, is_poly, pv_env flag)"""
@@ -474,9 +714,11 @@ def run(ctx):
             key = tuple(prof) if N >= 2 else (prof[0] if len(prof) == 1 else tuple(prof))
             tprof = tuple(p % n for p, n in zip(prof, T.nums)) if not malformed else None
             cur["call"] = "g[%r] (%s)" % (key, name)
+            if not malformed:
+                key = fprof(list(key)) if N >= 2 else fint(key)
             if name == "get":
                 try:
-                    r = g[key]
+                    r = ret("g[profile]", g[key]) if N >= 2 else g[key]
                     out = "v" + rats(F(x) for x in (np.atleast_1d(r)).tolist())
                     if malformed:
                         ctx.spec_fail("getitem-malformed", "g[%s] returned %r" % (key, r), dict(replay, index=prof))
@@ -516,7 +758,11 @@ def run(ctx):
                                       g.players[0].payoff_array.tolist(), key, vals, i, q, gc[q][i], Tc.u[q][i]),
                                   dict(replay, index=prof, values=vals))
             try:
-                g[key] = vals if N >= 2 else vals[0]
+                if N >= 2:
+                    g[key] = vals if malformed else fvals(vals, T.kind)
+                else:
+                    v0 = vals[0]
+                    g[key] = v0 if rng.random() < 0.5 else (np.float64(v0) if T.kind == "f" else np.int64(v0))
                 out = "-"
                 if malformed:
                     ctx.spec_fail("setitem-malformed", "g[%s]=%s accepted" % (key, vals), dict(replay, index=prof))
@@ -551,7 +797,7 @@ def run(ctx):
                     aa = rng.choice([T.nums[p], -T.nums[p] - 1])
             cur["call"] = "g.delete_action(%d, %d)" % (pp, aa)
             try:
-                g2 = g.delete_action(pp, aa)
+                g2 = g.delete_action(pp if bad else fint(pp, signed=True), aa if bad else fint(aa))
                 out = "-"
                 if bad or T.nums[p] == 1:
                     ctx.spec_fail("delete-malformed", "delete_action(%d,%d) accepted on %s" % (pp, aa, T.nums), dict(replay, player=pp, action=aa))
@@ -591,7 +837,18 @@ def run(ctx):
             pp = p - N if rng.random() < 0.2 else p
             cur["call"] = "g.delete_action(%d, %s)" % (pp, acts)
             try:
-                g2 = g.delete_action(pp, list(acts))
+                af = list(acts)
+                if not bad:
+                    kf = rng.randrange(4)
+                    if kf == 1:
+                        af = tuple(acts)
+                    elif kf == 2:
+                        af = reg("actions", np.array(acts, dtype=rng.choice([np.int8, np.int32, np.int64])))
+                    elif kf == 3:
+                        t_ = rng.choice([np.int8, np.int16, np.int64, np.intp])
+                        af = [t_(x) for x in acts]
+                    ctx.count("form:actions:%d" % kf)
+                g2 = g.delete_action(pp if bad else fint(pp, signed=True), af)
                 out = "-"
                 if bad or k == n:
                     ctx.spec_fail("delete-malformed", "delete_action(%d,%s) accepted on %s" % (pp, acts, T.nums), dict(replay, player=pp, actions=acts))
@@ -638,14 +895,14 @@ def run(ctx):
             n_mixed = sum(1 for o in opps if not isinstance(o, int))
             ctx.count("pv:mixed-opponents=%d" % n_mixed)
             if name == "pv":
-                v = player.payoff_vector(arg)
+                v = ret("payoff_vector", player.payoff_vector(arg))
                 got = [F(x) for x in np.asarray(v, dtype=float).tolist()]
                 if len(got) != len(ev) or any(abs(a - b) > Fraction(env) for a, b in zip(got, ev)):
                     ctx.spec_fail("payoff_vector", "payoff_vector %s is not the expected payoff %s" % (
                         [float(x) for x in got], [float(x) for x in ev]), rp)
                 return "pv:%d:%s" % (i, acts_str(opps)), "v" + rats(got), g, T, is_poly
             tol = rand_tol(cls)
-            tolv = F(1e-8) if tol is None else F(tol)
+            tolv = F(cur["dtol"]) if tol is None else F(tol)
             if name == "br":
                 pert = None
                 if rng.random() < 0.3:
@@ -656,7 +913,9 @@ def run(ctx):
                     ctx.count("skipped:near-boundary")
                     return None
                 kw = {} if tol is None else {"tol": tol}
-                brs = player.best_response(arg, tie_breaking=False, payoff_perturbation=pert, **kw)
+                pert_in = None if pert is None else fvec(pert, "payoff_perturbation")
+                brs = ret("best_response(tie_breaking=False)",
+                          call_tol(player.best_response, (arg, False, pert_in), tol))
                 brs = [int(x) for x in brs]
                 want = [a for a, va in enumerate(evp) if va >= max(evp) - tolv]
                 if brs != want:
@@ -679,8 +938,8 @@ def run(ctx):
             if not exact and abs(m) <= Fraction(4e-12) * Fraction(scale) and not isinstance(own, int):
                 ctx.count("skipped:near-boundary")
                 return None
-            kw = {} if tol is None else {"tol": tol}
-            r = bool(player.is_best_response(own, arg, **kw))
+            own_in = fint(own) if isinstance(own, int) else fvec(own, "own mixed action")
+            r = bool(call_tol(player.is_best_response, (own_in, arg), tol))
             if r != (m >= 0):
                 ctx.spec_fail("is_best_response", "is_best_response=%s, margin %s" % (r, float(m)), dict(rp, own=act_str(own), tol=tol))
             ctx.count("isbr:%s" % r)
@@ -708,7 +967,7 @@ def run(ctx):
                     k = rng.randrange(N)
                     prof[k] = rng.randrange(T.nums[k])
             tol = rand_tol(cls)
-            tolv = F(1e-8) if tol is None else F(tol)
+            tolv = F(cur["dtol"]) if tol is None else F(tol)
             cur["call"] = "g.is_nash(%s, tol=%s)" % ([act_str(a) for a in prof], tol)
             ok = True
             for i in range(N):
@@ -721,8 +980,9 @@ def run(ctx):
                     ctx.count("skipped:near-boundary")
                     return None
                 ok = ok and m >= 0
-            kw = {} if tol is None else {"tol": tol}
-            r = bool(g.is_nash(tuple(prof), **kw))
+            prof_in = [fint(x) if isinstance(x, int) else fvec(x, "mixed action in profile") for x in prof]
+            prof_in = tuple(prof_in) if rng.random() < 0.5 else prof_in
+            r = bool(call_tol(g.is_nash, (prof_in,), tol))
             if r != ok:
                 ctx.spec_fail("is_nash", "is_nash=%s, definition %s" % (r, ok),
                               dict(replay, profile=[act_str(a) for a in prof], tol=tol))
@@ -734,7 +994,7 @@ def run(ctx):
             n = T.nums[i]
             a = rng.randrange(n)
             tol = rng.choice([None, None, 0.25, 1.0, 2.0 ** -20, 0, 0.0, 1e-8, 0.5])
-            tolv = F(1e-8) if tol is None else F(tol)
+            tolv = F(cur["dtol"]) if tol is None else F(tol)
             others = [(i + 1 + k) % N for k in range(N - 1)]
             cols = list(itertools.product(*[range(T.nums[j]) for j in others]))
 
@@ -749,14 +1009,14 @@ def run(ctx):
             rp = dict(replay, player=i, action=a, tol=tol)
             cur["call"] = "players[%d].is_dominated(%d, tol=%s)" % (i, a, tol)
             if N == 1:
-                r = bool(player.is_dominated(a, **kw))
+                r = bool(call_tol(player.is_dominated, (fint(a),), tol, no_f32=True))
                 want = max(ui(b, ()) for b in range(n)) > ui(a, ()) + tolv
                 if r != want:
                     ctx.spec_fail("is_dominated", "1-player is_dominated=%s, definition %s" % (r, want), rp)
                 ctx.count("dom0:%s" % r)
                 return "dom0:%d:%d:%s" % (i, a, tol_tok(tol)), "b%d" % r, g, T, is_poly
             if n == 1:
-                r = bool(player.is_dominated(a, **kw))
+                r = bool(call_tol(player.is_dominated, (fint(a),), tol, no_f32=True))
                 if r:
                     ctx.spec_fail("is_dominated", "only action reported dominated", rp)
                 return "dompure:%d:%d:%s" % (i, a, tol_tok(tol)), "b%d" % r, g, T, is_poly
@@ -777,14 +1037,15 @@ def run(ctx):
             if abs(v - tolv) <= Fraction(1, 10 ** 9) * Fraction(scale):
                 ctx.count("skipped:near-boundary")
                 return None
-            r = bool(player.is_dominated(a, **kw))
+            r = bool(call_tol(player.is_dominated, (fint(a),), tol, no_f32=True))
             if r != (v > tolv):
                 ctx.spec_fail("is_dominated", "is_dominated=%s but the value of the domination game is %s (tol %s)" % (r, v, tolv), rp)
             if rng.random() < 0.3:
-                r2 = bool(player.is_dominated(a, method="highs", **kw))
+                r2 = bool(player.is_dominated(fint(a), ftol(tol, True), "highs") if rng.random() < 0.5
+                          else player.is_dominated(a, method="highs", **kw))
                 if r2 != r:
                     ctx.spec_fail("is_dominated-linprog", "linprog path says %s, minmax path %s" % (r2, r), rp)
-            da = player.dominated_actions(**kw)
+            da = call_tol(player.dominated_actions, (), tol, no_f32=True)
             if (a in da) != r:
                 ctx.spec_fail("dominated_actions", "dominated_actions %s vs is_dominated(%d)=%s" % (da, a, r), rp)
             ctx.count("dom:%s" % r)
@@ -796,8 +1057,37 @@ def run(ctx):
             return ("domcert:%d:%d:%s:%s:%s:%s" % (i, a, tol_tok(tol), rats(x), rats(y), rat(v)), "b%d" % r, g, T, is_poly)
 
         cur["call"] = name
+        if name == "poke":
+            # the caller edits one cell of one player's array in place, between calls
+            i = rng.randrange(N)
+            shape = T.nums[i:] + T.nums[:i]
+            idx = tuple(rng.randrange(n) for n in shape)
+            v = value(cls)
+            if T.kind == "f":
+                v = float(v)
+            via = rng.randrange(2)
+            target = g.players[i].payoff_array if via == 0 else g.payoff_arrays[i]
+            cur["call"] = "g.%s[%d]%s[%r] = %r" % ("players" if via == 0 else "payoff_arrays", i, ".payoff_array" if via == 0 else "", idx, v)
+            target[idx] = v
+            prof = [0] * N
+            for k in range(N):
+                prof[(i + k) % N] = idx[k]
+            T = T.copy()
+            uu = list(T.u[tuple(prof)])
+            uu[i] = v
+            T.u[tuple(prof)] = tuple(uu)
+            ctx.count("poke:via-%s" % ("players" if via == 0 else "payoff_arrays"))
+            return "poke:%d:%s:%s" % (i, ints(idx), rat(F(v))), "-", g, T, False
+        if name == "settol":
+            # attribute reassignment: every player's default tolerance
+            x = rng.choice([0, 0.0, 0.5, 2.0 ** -20, 1.0, 1e-8, 1e-6, np.float64(0.25)])
+            for pl in g.players:
+                pl.tol = x
+            cur["dtol"] = float(x)
+            ctx.count("settol:%r" % float(x))
+            return "settol:%s" % rat(F(float(x))), "-", g, T, is_poly
         if name == "profarr":
-            ppa = g.payoff_profile_array
+            ppa = ret("payoff_profile_array", g.payoff_profile_array)
             return "profarr", "v" + rats(F(x) for x in ppa.ravel().tolist()), g, T, is_poly
         if name == "reprof":
             if N == 2 and T.nums[0] == T.nums[1] and False:
@@ -809,11 +1099,16 @@ def run(ctx):
             return "replayers", "-", g2, T, is_poly
         if name == "gam":
             if rng.random() < 0.5:
-                s = to_gam(g)
+                s = to_gam(g) if rng.random() < 0.5 else to_gam(g, None)
+                if rng.random() < 0.3 and GAMWriter.to_string(g) != s:
+                    ctx.spec_fail("gam-writer-views", "to_gam(g) and GAMWriter.to_string(g) differ", replay)
                 g2 = GAMReader.from_string(s)
             else:
                 fn = os.path.join(tmpdir, "rt.gam")
-                to_gam(g, fn)
+                if rng.random() < 0.5:
+                    to_gam(g, fn)
+                else:
+                    to_gam(g, file_path=fn)
                 g2 = from_gam(fn)
                 with open(fn) as f:
                     s = f.read()
@@ -992,11 +1287,41 @@ def run(ctx):
           [("gam", lambda g: ("g3,2/" + ";".join(rats(int(Db[a, b, i]) for b in range(2) for a in range(3)) for i in range(2)),
                               GAMReader.from_string(to_gam(g)))), ("get", _get((0, 0)))])
 
-    alphabet = ["get", "set", "del", "pv", "br", "isbr", "nash", "dom", "profarr", "reprof", "replayers", "gam",
-                "logit", "polyrt", "delm"]
-    weights = [3, 5, 5, 5, 4, 4, 4, 4, 2, 2, 1, 3, 2, 2, 3]
+    # ---- legal-looking forms the clean code mishandles: counted as unlisted findings until listed ------------------
+    pb = Player(np.array([[1., 2.], [3., 4.]]))
+    try:
+        rb = pb.is_best_response(True, 0)
+        okb = isinstance(rb, (bool, np.bool_)) and bool(rb) == bool(pb.is_best_response(1, 0))
+    except Exception:
+        okb = False
+    if not okb:
+        finding("bool-own-action", "Player([[1,2],[3,4]]).is_best_response(True, 0): a Python bool passes the Integral test "
+                "(payoff_vector/best_response treat it as action 1) but indexes payoff_vector as a mask", {"own_action": True})
+    g3 = NormalFormGame(np.arange(24.).reshape(2, 2, 2, 3))
+    try:
+        h3 = g3.delete_action(np.uint8(0), 1)
+        oku = h3.nums_actions == (1, 2, 2)
+    except Exception:
+        oku = False
+    # a float32 tolerance: the LP branch compares the Python float returned by minmax with it, which NumPy (NEP 50)
+    # does in float32 — a margin of 0.5 + 2^-30 over tol = np.float32(0.5) is lost
+    gq = NormalFormGame(np.array([[[-4.5, 0.5]], [[-3 + 2.0 ** -30, -0.75]], [[-3.5, -0.5]]]))
+    try:
+        okq = bool(gq.players[0].is_dominated(2, tol=np.float32(0.5))) == bool(gq.players[0].is_dominated(2, tol=0.5))
+    except Exception:
+        okq = False
+    if not okq:
+        finding("float32-tol-lp-branch", "players[0].is_dominated(2, tol=np.float32(0.5)) is False, with tol=0.5 True (3x1 game, action 1 "
+                "beats action 2 by 0.5+2^-30): `v > tol` is evaluated in float32", {"tol": "np.float32(0.5)"})
+    if not oku:
+        finding("unsigned-player-idx", "NormalFormGame(2x2x2).delete_action(np.uint8(0), 1) fails: player_idx - i wraps around "
+                "for unsigned NumPy integers (AxisError; OverflowError for uint64)", {"player_idx": "np.uint8(0)", "action": 1})
 
-    ext_ops = ["get", "set", "del", "delm", "profarr", "reprof", "replayers", "gam", "gam", "logit"]
+    alphabet = ["get", "set", "del", "pv", "br", "isbr", "nash", "dom", "profarr", "reprof", "replayers", "gam",
+                "logit", "polyrt", "delm", "poke", "settol"]
+    weights = [3, 5, 5, 5, 4, 4, 4, 4, 2, 2, 1, 3, 2, 2, 3, 3, 2]
+
+    ext_ops = ["get", "set", "del", "delm", "profarr", "reprof", "replayers", "gam", "gam", "logit", "poke"]
 
     def history(names=None, game=None):
         if game is None:
@@ -1024,15 +1349,24 @@ def run(ctx):
             return
         L = rng.randint(1, 4) if names is None else len(names)
         toks, outs, env_ops = [], ["-#" + state_str(g)], set()
+        kept = []         # every array the library returned so far: (label, array, its bytes when it was returned)
+        old_games = []    # every earlier game object with the payoff function it must still show
+        cur["dtol"] = 1e-8
         big = T.N >= 2 and sum(1 for n in T.nums if n >= 2) >= 2
         for k in range(L):
             name = rng.choices(alphabet, weights)[0] if names is None else names[k]
             if cls in EXT and name not in ext_ops:
                 name = rng.choice(ext_ops)
             cur["call"] = name
+            del inputs[:]
+            del returned[:]
+            g_before, T_before = g, T
             try:
                 res = do_op(g, T, cls, is_poly, name, replay)
             except Exception as e:      # a valid call raised: a failing input, not a tool failure
+                if os.environ.get("C14_TRACE"):
+                    import traceback
+                    traceback.print_exc()
                 ctx.spec_fail("exception:" + name, "%s raised %s: %s" % (cur.get("call"), type(e).__name__, e),
                               dict(replay, call=cur.get("call")))
                 break
@@ -1044,6 +1378,37 @@ def run(ctx):
             if name == "pv" and not exact:
                 env_ops.add(len(toks))
             outs.append(out + "#" + state_str(g))
+            # (2) inputs bitwise unchanged; returned arrays alias neither the game, nor the inputs, nor earlier results
+            for lab, base, b in inputs:
+                if base.tobytes() != b:
+                    ctx.spec_fail("input-mutated", "%s changed its input (%s)" % (cur.get("call"), lab), replay)
+            own_arrays = [p.payoff_array for p in g.players] + ([] if g is g_before else [p.payoff_array for p in g_before.players])
+            for lab, arr in returned:
+                if any(np.shares_memory(arr, a) for a in own_arrays):
+                    if lab == "payoff_vector" and T.N == 1:
+                        finding("payoff-vector-1p-alias", "Player.payoff_vector(None) of a 1-player game returns the stored "
+                                "payoff_array itself (a later in-place edit by either side changes the other)", replay)
+                        continue
+                    ctx.spec_fail("alias:returned-" + lab, "%s: the returned array shares memory with the game's payoff arrays" % cur.get("call"), replay)
+                if any(np.shares_memory(arr, a2) for _, a2, _ in kept):
+                    ctx.spec_fail("alias:returned-earlier", "%s: the returned array shares memory with an earlier result" % cur.get("call"), replay)
+                if any(np.shares_memory(arr, b2) for _, b2, _ in inputs):
+                    ctx.spec_fail("alias:returned-input", "%s: the returned array shares memory with an argument" % cur.get("call"), replay)
+                kept.append((lab, arr, arr.tobytes()))
+            if g is not g_before:
+                if any(np.shares_memory(p.payoff_array, q.payoff_array) for p in g.players for q in g_before.players):
+                    ctx.spec_fail("alias:new-game-shares-old", "%s: the new game's arrays share memory with the old game's" % cur.get("call"), replay)
+                old_games.append((g_before, T_before))
+                cur["dtol"] = 1e-8       # new Player objects carry the default tolerance again
+            # (1) every earlier result and every earlier game object is what it was
+            for lab, arr, b in kept:
+                if arr.tobytes() != b:
+                    ctx.spec_fail("returned-result-changed", "the array returned earlier by %s changed after %s" % (lab, cur.get("call")), replay)
+            for go, To in old_games:
+                try:
+                    check_views(ctx, go, To, "EARLIER game object after call %d (%s)" % (len(toks), tok.split(":")[0]), replay)
+                except Exception as e:
+                    ctx.spec_fail("exception:views", "reading an earlier game raised %s: %s" % (type(e).__name__, e), replay)
             # definition-level check of every view after every call
             if not views("after call %d (%s)" % (len(toks), tok.split(":")[0])):
                 break
@@ -1054,7 +1419,7 @@ def run(ctx):
         cases.append(Case(line, "|".join(outs), nontrivial=big and len(toks) >= 1, cmp=make_cmp(env_ops, env),
                           tag="history", meta=replay))
 
-    for _ in range(ctx.n(2000, 20000)):
+    for _ in range(ctx.n(1500, 15000)):
         history()
 
     # ---- explicit tolerances x tiny margins ------------------------------------------------------------------------
@@ -1082,6 +1447,7 @@ def run(ctx):
         return ms
 
     def tol_history():
+        cur["dtol"] = 1e-8
         N = rng.choice([1, 2, 2, 3, 3, 4])
         while True:
             nums = tuple(rng.randint(1, 3) for _ in range(N))
@@ -1090,7 +1456,7 @@ def run(ctx):
                 break
         others = [(i + 1 + k) % N for k in range(N - 1)]
         tol = rng.choice(TOLS)
-        t = F(1e-8) if tol is None else F(tol)
+        t = F(cur["dtol"]) if tol is None else F(tol)
         m = rng.choice(margins_for(t))
         a, b = rng.sample(range(nums[i]), 2)
         const_others = rng.random() < 0.6      # the other players are indifferent: is_nash hinges on player i alone
@@ -1168,7 +1534,7 @@ def run(ctx):
             return v > t, (x, y, v), abs(v - t) > Fraction(1, 10 ** 11) * 16
         want, cert, ok_fp = exact_dom(a)
         if want is not None and ok_fp:
-            okc, r = guarded("is_dominated", lambda: bool(player.is_dominated(a, **kw)))
+            okc, r = guarded("is_dominated", lambda: bool(call_tol(player.is_dominated, (fint(a),), tol, no_f32=True)))
             if okc:
                 if r != want:
                     ctx.spec_fail("is_dominated-tol", "is_dominated(%d, tol=%r)=%s on a game where action %d beats it by exactly %r at "
@@ -1184,7 +1550,7 @@ def run(ctx):
             # dominated_actions forwards tol: compare the whole list where every action is decidable
             full = [exact_dom(c) for c in range(nums[i])]
             if all(w is not None and o for w, _, o in full):
-                okc, da = guarded("dominated_actions", lambda: [int(x) for x in player.dominated_actions(**kw)])
+                okc, da = guarded("dominated_actions", lambda: [int(x) for x in call_tol(player.dominated_actions, (), tol, no_f32=True)])
                 wl = [c for c in range(nums[i]) if full[c][0]]
                 if okc and da != wl:
                     ctx.spec_fail("dominated_actions-tol", "dominated_actions(tol=%r)=%s, definition %s" % (tol, da, wl), rep_)
@@ -1246,7 +1612,7 @@ def run(ctx):
         cases.append(Case("C14 run %s ops=%s" % (ctor, "|".join(toks) if toks else "-"), "|".join(outs),
                           nontrivial=True, tag="tolerance", meta=rep_))
 
-    for _ in range(ctx.n(700, 6000)):
+    for _ in range(ctx.n(500, 5000)):
         tol_history()
 
     # ---- every pair / triple of state-changing and observing calls on small games -------------------------
